@@ -455,20 +455,43 @@ async fn drive(net: NetRef, run: RunDesc, port: u16) -> Value {
         if let Action::Probe = a {
             // bounded liveness: the probe must be answered once the system is quiet.
             let p = probes.last().unwrap();
+            // bounded liveness in simulated time: a server may be sitting in a
+            // timer (back-off after a failed accept, say); give it up to 10
+            // simulated seconds of quiet before looking at the wall clock
+            let mut waited_ms = 0u64;
+            while !responses_complete(p) && waited_ms < 10_000 {
+                tokio::time::advance(Duration::from_millis(100)).await;
+                waited_ms += 100;
+                settle(&net, true, &mut stats).await;
+            }
+            if waited_ms > 0 {
+                bump("probe_needed_simulated_time_ms", waited_ms, &mut stats);
+                bump("simulated_ms", waited_ms, &mut stats);
+            }
             if !responses_complete(p) {
                 // a server that computes on other threads needs wall-clock time, not steps
                 if std::env::var("VERIF_C20_DEBUG").is_ok() {
                     let st = p.st.as_ref().unwrap().lock().unwrap();
                     eprintln!("probe {} after action {} incomplete: got {:?} inbound_left={} window={}", probes.len() - 1, ai, simcommon::escape_bytes(&st.outbound), st.inbound.len(), st.window);
                 }
-                let deadline = Instant::now() + Duration::from_secs(60);
-                while !responses_complete(p) && Instant::now() < deadline {
+                // wall-clock patience only as long as something still happens
+                let mut deadline = Instant::now() + Duration::from_secs(8);
+                let hard_deadline = Instant::now() + Duration::from_secs(60);
+                let mut seen = net.lock().unwrap().activity;
+                while !responses_complete(p) && Instant::now() < deadline && Instant::now() < hard_deadline {
                     std::thread::sleep(Duration::from_millis(2));
                     settle(&net, true, &mut stats).await;
                     bump("waited_for_other_threads", 1, &mut stats);
+                    let now = net.lock().unwrap().activity;
+                    if now != seen {
+                        seen = now;
+                        deadline = Instant::now() + Duration::from_secs(8);
+                    }
                 }
                 if !responses_complete(p) {
                     liveness_failures.push(format!("probe {} (after action {} of {}) was not answered", probes.len() - 1, ai, n_actions));
+                    // the verdict for this run is in; do not wait out every later probe as well
+                    break;
                 }
             }
         }
@@ -487,6 +510,17 @@ async fn drive(net: NetRef, run: RunDesc, port: u16) -> Value {
         })
     };
     settle(&net, true, &mut stats).await;
+    {
+        let mut waited_ms = 0u64;
+        while pending(&clients) && waited_ms < 10_000 {
+            tokio::time::advance(Duration::from_millis(100)).await;
+            waited_ms += 100;
+            settle(&net, true, &mut stats).await;
+        }
+        if waited_ms > 0 {
+            bump("simulated_ms", waited_ms, &mut stats);
+        }
+    }
     if pending(&clients) {
         if std::env::var("VERIF_C20_DEBUG").is_ok() {
             for (i, c) in clients.iter().enumerate() {
@@ -497,7 +531,7 @@ async fn drive(net: NetRef, run: RunDesc, port: u16) -> Value {
                 }
             }
         }
-        let deadline = Instant::now() + Duration::from_secs(120);
+        let deadline = Instant::now() + Duration::from_secs(if liveness_failures.is_empty() { 30 } else { 1 });
         while pending(&clients) && Instant::now() < deadline {
             std::thread::sleep(Duration::from_millis(2));
             settle(&net, true, &mut stats).await;
